@@ -52,7 +52,7 @@ def decide(run, prop, recs, res, errors, theorems, which):
 
 def run(run, args):
     formlib.prepare(run)
-    plan = [("exh", 4, 0), ("rand", 4000, 10000000)] if run.tier == "quick" else [("exh", 5, 0), ("rand", 60000, 10000000)]
+    plan = [("exh", 4, 0), ("rand", 4000 * run.scale, 10000000)] if run.tier == "quick" else [("exh", 5, 0), ("rand", 60000 * run.scale, 10000000)]
     recs = gather(run, plan)
     res, errors = formlib.evaluate("C05", recs, shard=3000)
     run.cov["rule"] = ("every string up to length %d over the 14-character alphabet {C l H X e 2 0 [ ] ( ) space e-acute arabic-indic-3} (exhaustive), "
